@@ -10,6 +10,7 @@ package sniff
 // filter) and target.
 
 import (
+	"bytes"
 	"errors"
 	"fmt"
 	"io"
@@ -464,6 +465,7 @@ func genTCP(r *hysim.Rand, tier string) *hysim.Script {
 	sc.Cfg["pf"] = int64(r.Pick(0, 0, 0, 0, 0, 0, 0, 1, 1, 1, 2, 3, 4, 4, 5, 6, 6, 7))
 	sc.Cfg["end"] = int64(r.Pick(0, 0, 0, 1, 2, 2, 3))
 	sc.Cfg["lead_ms"] = r.Pick64(0, 0, 0, 1, T/2)
+	sc.Cfg["interfere"] = int64(r.Pick(0, 0, 1)) // other flows are sniffed between this hook's return and the replay
 	yieldCfg(r, sc, T*1000/2)
 
 	seed := int64(r.Uint64() >> 1)
@@ -717,6 +719,26 @@ func execTCP(x *hysim.Run) {
 	})
 	took := x.Now() - t0
 	st.draining = true
+	if sc.Get("interfere", 0) == 1 && !panicked {
+		// The server replays the returned bytes only after it has dialled the target; meanwhile
+		// other connections are being sniffed by the same Sniffer. What was returned for this flow
+		// must not change when that happens.
+		for k, sni := range []string{"other-flow.example.net", "second.other-flow.example.org"} {
+			var other []byte
+			if hello, herr := captureClientHello(sni, int64(k)); herr == nil {
+				other = tlsRecord(0x16, 0x01, len(hello), hello)
+			}
+			other2 := []byte("GET /interfere HTTP/1.1\r\nHost: other-flow.example.net\r\nX-Fill: " + strings.Repeat("z", 300) + "\r\n\r\n")
+			for _, content := range [][]byte{other, other2} {
+				if len(content) == 0 {
+					continue
+				}
+				a := "203.0.113.9:443"
+				x.Recover("interfering Sniffer.TCP", func() { _, _ = sn.TCP(&plainStream{r: bytes.NewReader(content)}, &a) })
+			}
+		}
+		x.Probe("interfering-sniffs-before-replay")
+	}
 	x.Ev("hook done: hooked=%v putback=%d err=%v addr=%s took=%v panicked=%v", hooked, len(putback), err, reqAddr, took, panicked)
 
 	switch {
@@ -884,3 +906,15 @@ func execTCP(x *hysim.Run) {
 		hysim.HarnessBug("client task still alive at the end of the run: %v", al)
 	}
 }
+
+
+// plainStream: a HyStream whose whole content is available at once (used for interfering flows).
+type plainStream struct{ r *bytes.Reader }
+
+func (p *plainStream) StreamID() quic.StreamID            { return 8 }
+func (p *plainStream) Read(b []byte) (int, error)         { return p.r.Read(b) }
+func (p *plainStream) Write(b []byte) (int, error)        { return len(b), nil }
+func (p *plainStream) Close() error                       { return nil }
+func (p *plainStream) SetReadDeadline(time.Time) error    { return nil }
+func (p *plainStream) SetWriteDeadline(time.Time) error   { return nil }
+func (p *plainStream) SetDeadline(time.Time) error        { return nil }
